@@ -445,7 +445,7 @@ compile:
 	// While we're running, also update task stats directly into the tasks's status.
 	// TODO(marius): also aggregate stats across all tasks.
 	statsCtx, statsCancel := context.WithCancel(ctx)
-	go monitorTaskStats(statsCtx, m, task)
+	go monitorTaskStats(statsCtx, m, task.Name, task.Status)
 
 	b.sess.tracer.Event(m, task, "B")
 	task.Set(TaskRunning)
@@ -495,8 +495,11 @@ compile:
 }
 
 // monitorTaskStats monitors stats (e.g. records read/written) of the task
-// running on m, updating task's status until ctx is done.
-func monitorTaskStats(ctx context.Context, m *sliceMachine, task *Task) {
+// running on m, updating the status of this attempt until ctx is done. It is
+// given the attempt's status rather than the task: the evaluator installs a new
+// status in the task when it runs the task again, possibly while a monitor of
+// an earlier attempt is still winding down.
+func monitorTaskStats(ctx context.Context, m *sliceMachine, name TaskName, status *status.Task) {
 	wait := func() {
 		select {
 		case <-time.After(statsPollInterval):
@@ -505,13 +508,13 @@ func monitorTaskStats(ctx context.Context, m *sliceMachine, task *Task) {
 	}
 	for ctx.Err() == nil {
 		var vals *stats.Values
-		err := m.RetryCall(ctx, "Worker.TaskStats", task.Name, &vals)
+		err := m.RetryCall(ctx, "Worker.TaskStats", name, &vals)
 		if err != nil {
 			log.Error.Printf("error getting task stats from %s: %v", m.Addr, err)
 			wait()
 			continue
 		}
-		task.Status.Printf("%s: %s", m.Addr, *vals)
+		status.Printf("%s: %s", m.Addr, *vals)
 		wait()
 	}
 }
